@@ -133,7 +133,7 @@ def sweep(space, evaluate, init=None, chunk=None):
     tasks = pool.chunks(len(space), chunk or CHUNK)
     results = pool.pmap(_sweep_chunk, tasks, init=init)
     # determinism gate: re-run the first cases after the workers have done other work
-    gate_n = min(len(space), 200)
+    gate_n = min(len(space), 200, chunk or CHUNK)
     again = pool.pmap(_sweep_chunk, [(0, gate_n)], jobs=1)[0]
     ref_fails = [f for r in results for f in r["fails"] if f[0] < gate_n]
     if sorted(map(repr, ref_fails)) != sorted(map(repr, again["fails"])):
@@ -272,7 +272,10 @@ def run_doc_check(mod, tier):
     listed_fail = {}
     listed_pass = []
     for key, (fid, lsig) in led.by_key.items():
-        f = mod.evaluate(space.payload_from_key(key)).get("fail")
+        if hasattr(mod, "evaluate_key"):
+            f = mod.evaluate_key(key)
+        else:
+            f = mod.evaluate(space.payload_from_key(key)).get("fail")
         if f is None:
             listed_pass.append((fid, key))
         else:
